@@ -126,7 +126,13 @@ def _handle_job_set(function):
     def call(self, job_set=taskhandle.DEFAULT_JOB_SET):
         job_set.started_job(str(self))
         function(self)
-        job_set.finished_job()
+        try:
+            job_set.finished_job()
+        except exceptions.InterruptedTaskError:
+            # The change has been performed already; reporting the
+            # interruption here would leave it applied but unrecorded.
+            # The next job, if any, notices that the task is stopped.
+            pass
 
     return call
 
